@@ -1213,6 +1213,54 @@ def jobs(ctx):
     return js
 
 
+def probe_scenario_objects(ctx):
+    """(a) a ParameterScenario built without values and filled through .add() holds only what was added to IT -- an intervention defined in one scenario object has no effect
+    on a run made with another; (b) the instructions a BudgetScenario produces apply its spending series as it is stated (stepped): a change dated Y does not move the
+    spending of the years between the program start and Y."""
+    import atomica as at
+
+    P = at.demo("udt", do_run=False)
+    ps = P.parsets[0]
+    def _nofn(n):
+        f = P.framework.pars.at[n, "function"]
+        return not isinstance(f, str)
+    par = [n for n in ps.pars if n in P.framework.pars.index and _nofn(n) and len(ps.pars[n].ts) and list(ps.pars[n].ts.values())[0].has_data][0]
+    pop = list(ps.pars[par].ts.keys())[0]
+    y0 = float(P.settings.sim_start)
+    # (a)
+    s1 = at.ParameterScenario(name="first")
+    s1.add(par, pop, [y0 + 2], [0.777])
+    s2 = at.ParameterScenario(name="second")
+    ctx.count("probe.scenario_objects")
+    ctx.case({"probe": "scenario-objects"}, nontrivial=True)
+    leaked = bool(s2.scenario_values) and par in (s2.scenario_values or {})
+    base = P.run_sim(ps, store_results=False)
+    r2 = s2.run(P, ps, store_results=False) if hasattr(s2, "run") else None
+    if r2 is not None and isinstance(r2, list):
+        r2 = r2[0]
+    differs = r2 is not None and not np.array_equal(np.asarray(base.get_variable(par, pop)[0].vals), np.asarray(r2.get_variable(par, pop)[0].vals), equal_nan=True)
+    if leaked or differs:
+        ctx.violation({"api": "ParameterScenario", "case": "overwrites-leak-between-scenario-objects"},
+                      f"a ParameterScenario created empty after another one had an overwrite of {par}/{pop} added holds {dict(s2.scenario_values) if s2.scenario_values else {} !r}" + ("; running it changes the parameter although nothing was added to it" if differs else ""),
+                      {"kind": "probe", "probe": "scenario-objects"})
+    # (b)
+    if len(P.progsets):
+        pg = P.progsets[0]
+        prog = list(pg.programs.keys())[0]
+        start, Y = y0 + 2.0, y0 + 4.0
+        v0, v1 = 1000.0, 9000.0
+        bs = at.BudgetScenario(name="b", alloc={prog: at.TimeSeries([start - 2.0, Y], [v0, v1])}, start_year=start)
+        ins = bs.get_instructions(pg, P)
+        tv = np.array([start, start + 0.5, Y - 0.5, Y, Y + 1.0])
+        got = np.asarray(pg.get_alloc(tv, ins)[prog], dtype=float)
+        want = np.array([v0, v0, v0, v1, v1])
+        ctx.count("probe.budget_scenario_stepped")
+        ctx.case({"probe": "budget-scenario-stepped"}, nontrivial=True)
+        if not np.allclose(got, want, rtol=1e-12, atol=0):
+            ctx.violation({"api": "BudgetScenario.get_instructions", "case": "change-dated-Y-moves-earlier-spending"},
+                          f"BudgetScenario(alloc={{{prog!r}: TimeSeries([{start - 2.0}, {Y}], [{v0}, {v1}])}}, start_year={start}): spending at {tv.tolist()} is {got.tolist()}, stated (stepped) {want.tolist()}", {"kind": "probe", "probe": "budget-scenario"})
+
+
 def run(ctx):
     import logging
     import warnings
@@ -1223,6 +1271,7 @@ def run(ctx):
     at.logger.setLevel(logging.ERROR)
     run_modeA_scen(ctx)
     run_modeA_series(ctx)
+    probe_scenario_objects(ctx)
     # closed loop with programs: whole trajectories from the specification alone; on a disagreement the prefix oracle (re-run without programs) is evaluated
     from vlib import closedprog_corr
     closedprog_corr.run_closedprog(ctx, PROPERTY, ctx.n(25, 600))
@@ -1265,6 +1314,12 @@ def replay(ctx, data):
     if isinstance(c, dict) and c.get("closedprog"):
         from vlib import closedprog_corr
         return closedprog_corr.replay_case(c)
+    if rp.get("kind") == "probe":
+        sub = core.Ctx(PROPERTY, "quick", 0)
+        probe_scenario_objects(sub)
+        for v in sub.violations:
+            print("VIOLATION", v["key"], v["what"][:400])
+        return 1 if sub.violations else 0
     if isinstance(c, dict) and c.get("closed"):
         from vlib import closed_corr
         return closed_corr.replay_case(c)
